@@ -388,7 +388,41 @@ def tables_for(tier, seed):
         yield n, m, gen.rnd_rows(rng, n, m, rng.choice([.2, .5, .8]))
 
 
+def real_files():
+    import glob
+    repo = os.environ.get('VERIF_REPO', '/repo')
+    for path in sorted(glob.glob(os.path.join(repo, 'examples', '*'))):
+        if os.path.splitext(path)[1].lower() in ('.cxt', '.csv', '.txt') and os.path.getsize(path) < 200000:
+            yield {'real': os.path.basename(path)}
+
+
+def run_real(concepts, case, spec):
+    """Shipped example files: load() (suffix inference) vs the independent reader (monitor), then
+    every format round trip of the loaded context."""
+    repo = os.environ.get('VERIF_REPO', '/repo')
+    path = os.path.join(repo, 'examples', case['real'])
+    ctx = call(concepts.load, path)
+    COL.count('real_example_files')
+    if ctx is RAISED:
+        COL.violation('driver', 'real-example:load-raised', case['real'], 'exception')
+        return
+    call(concepts.Definition.fromfile, path, refio.SUFFIX[os.path.splitext(path)[1].lower()], 'utf-8')
+    for fmt in ('table', 'cxt', 'csv', 'python-literal'):
+        if not _representable(fmt, ctx.objects, ctx.properties):
+            continue
+        text = call(ctx.tostring, fmt)
+        if text is RAISED:
+            continue
+        c2 = call(concepts.Context.fromstring, text, fmt)
+        COL.count('judged_roundtrip')
+        if c2 is RAISED or not (c2 == ctx):
+            COL.violation('driver', f'roundtrip:{fmt}-real-example-gives-another-context', case['real'], repr(c2))
+    call(ctx.tostring, 'wiki-table')
+    call(ctx.tostring, 'fimi')
+
+
 def cases(tier, seed, spec):
+    yield from real_files()
     names = sorted(ALPHABETS)
     k = 0
     for n, m, rows in tables_for(tier, seed):
@@ -408,6 +442,8 @@ def _mixcase(s, rng):
 
 
 def run_case(concepts, case, spec):
+    if 'real' in case:
+        return run_real(concepts, case, spec)
     C, D = concepts.Context, concepts.Definition
     rng = random.Random(f"{spec['seed']}/c12/{core.dumps(case)}")
     o, p = ALPHABETS[case['alphabet']]
